@@ -52,7 +52,11 @@ class VetoLookup(Veto, KeyError):
     """A veto that surfaces as a LookupError from the hook's own bookkeeping."""
 
 
-VETO_KINDS = {None: Veto, "assert": VetoAssert, "tree": VetoTree, "lookup": VetoLookup}
+class VetoStop(Veto, StopIteration):
+    """A veto that is a StopIteration (a hook that calls next() on an exhausted iterator): it must arrive as what it is."""
+
+
+VETO_KINDS = {None: Veto, "assert": VetoAssert, "tree": VetoTree, "lookup": VetoLookup, "stop": VetoStop}
 
 
 class VetoBase(BaseException):
@@ -86,6 +90,7 @@ class Recorder:
         self.evict = {(k, l) for k, l in plan.get("evict", ())}
         self.base = set(plan.get("base", ()))
         self.rehome = {(k, l) for k, l in plan.get("rehome", ())}
+        self.false_at = set(plan.get("false", ()))
         self.veto_class = VETO_KINDS[plan.get("exc")]
 
     def hook(self, kind, node, arg):
@@ -100,6 +105,8 @@ class Recorder:
         self.log.append([kind, label, arg_l])
         if self.take_snapshots:
             self.snaps.append(snap)
+        if self.count in self.false_at:
+            return False  # hooks are notifications: what they return means nothing
         if self.count in self.base:
             self.raised.append(self.count)
             raise VetoBase(kind, label, self.count)
@@ -162,28 +169,28 @@ class HookMix:
     __slots__ = ()
 
     def _pre_detach(self, parent):
-        _rec().hook("pre_detach", self, parent)
+        return _rec().hook("pre_detach", self, parent)
 
     def _post_detach(self, parent):
-        _rec().hook("post_detach", self, parent)
+        return _rec().hook("post_detach", self, parent)
 
     def _pre_attach(self, parent):
-        _rec().hook("pre_attach", self, parent)
+        return _rec().hook("pre_attach", self, parent)
 
     def _post_attach(self, parent):
-        _rec().hook("post_attach", self, parent)
+        return _rec().hook("post_attach", self, parent)
 
     def _pre_detach_children(self, children):
-        _rec().hook("pre_detach_children", self, children)
+        return _rec().hook("pre_detach_children", self, children)
 
     def _post_detach_children(self, children):
-        _rec().hook("post_detach_children", self, children)
+        return _rec().hook("post_detach_children", self, children)
 
     def _pre_attach_children(self, children):
-        _rec().hook("pre_attach_children", self, children)
+        return _rec().hook("pre_attach_children", self, children)
 
     def _post_attach_children(self, children):
-        _rec().hook("post_attach_children", self, children)
+        return _rec().hook("post_attach_children", self, children)
 
     def __repr__(self):
         if REPR_BOOM[0]:
@@ -890,12 +897,13 @@ def history_strategy(max_nodes=7, max_steps=30, faults="none", invalid=False, cl
         if faults == "none":
             plan = st.just({})
         else:
-            once = st.tuples(st.lists(st.integers(1, 14), min_size=1, max_size=2, unique=True), st.sampled_from([None, None, "assert", "tree", "lookup"])).map(lambda t: {"once": sorted(t[0]), "exc": t[1]} if t[1] else {"once": sorted(t[0])})
+            once = st.tuples(st.lists(st.integers(1, 14), min_size=1, max_size=2, unique=True), st.sampled_from([None, None, "assert", "tree", "lookup", "stop"])).map(lambda t: {"once": sorted(t[0]), "exc": t[1]} if t[1] else {"once": sorted(t[0])})
             persist = st.lists(st.tuples(st.sampled_from(list(hooks)), idx).map(list), min_size=1, max_size=3).map(lambda ps: {"persist": ps})
             readonly = st.just({"persist": [[h, i] for i in range(n) for h in ("pre_detach", "pre_attach")]})
             plans = [st.just({}), st.just({}), once, once, persist, readonly]
             if faults == "all+evict":
                 plans.append(st.integers(1, 14).map(lambda k: {"base": [k]}))
+                plans.append(st.lists(st.integers(1, 14), min_size=1, max_size=3, unique=True).map(lambda ks: {"false": sorted(ks)}))
                 plans.append(st.lists(st.tuples(st.sampled_from(["pre_detach", "post_detach", "pre_attach", "post_attach", "pre_detach_children", "post_detach_children", "pre_attach_children", "post_attach_children"]), idx).map(list), min_size=1, max_size=2).map(lambda ps: {"evict": ps}))
             plan = st.one_of(*plans)
         steps = draw(st.lists(st.tuples(op, plan).map(lambda t: {"op": t[0], "plan": t[1]}), min_size=1, max_size=max_steps))
@@ -973,7 +981,7 @@ def enum_fault_cases(cls, n, index, count, fault_hooks=(), pairs=False, persist=
     """Single-step cases: every forest x build route x call x fault position of this shard."""
     family = family_of(cls)
     fault_hooks = set(fault_hooks)
-    kinds = itertools.cycle([None, "assert", None, "tree", None, "lookup"])
+    kinds = itertools.cycle([None, "assert", None, "tree", None, "lookup", None, "stop"])
     classes = class_list(cls, n)
     for state, route in enum_states(n, index, count):
         if routes is not None and route not in routes:
@@ -1014,6 +1022,9 @@ def enum_fault_cases(cls, n, index, count, fault_hooks=(), pairs=False, persist=
                     if kind in fault_hooks and isinstance(label, int):
                         yield dict(base, steps=[{"op": op, "plan": {"persist": [[kind, label]]}}])
             if evict:
+                # a hook that RETURNS False at every position (return values of notification hooks mean nothing)
+                for k in range(1, len(log0) + 1):
+                    yield dict(base, steps=[{"op": op, "plan": {"false": [k]}}])
                 # an interrupt-like BaseException from every hook position
                 for k in range(1, len(log0) + 1):
                     yield dict(base, steps=[{"op": op, "plan": {"base": [k]}}])
